@@ -1,2 +1,4 @@
 //! Generators shared by several checks.
 pub mod syntax;
+pub mod bookgen;
+pub mod ledger;
